@@ -72,3 +72,16 @@ Example ex_ctor_keys_extra : ctor [0; 1; 2] [[]; [0]] = FErr FKeys.         (* a
 Proof. reflexivity. Qed.
 Example ex_ctor_keys_ok : exists r, ctor [1; 0] [[]; [0]] = FOk r.
 Proof. eexists. reflexivity. Qed.
+
+(** the hypotheses of the acceptance theorem hold for [ex_defs]; a cyclic pair of definitions *)
+Example ex_accept_defs_hyps :
+  ~ bad_signature ex_defs /\ ~ unknown_param ex_defs /\ ~ self_param ex_defs /\ ~ isolated_def ex_defs /\ ~ cyclic_defs ex_defs.
+Proof. apply from_dict_accepts_iff. eexists. exact ex_from_dict_ok. Qed.
+
+Definition ex_defs_cyclic : list vdef := [DLinked (CPlain [kw 1]); DLinked (CNamed (bound_to [] [0] []))].
+Example ex_cyclic_defs : cyclic_defs ex_defs_cyclic /\ from_dict ex_defs_cyclic = FErr (FDag ENotDag).
+Proof.
+  split; [|reflexivity]. exists 0. apply t_trans with 1; apply t_step.
+  - eexists. split; [reflexivity|]. simpl. auto.
+  - eexists. split; [reflexivity|]. exists (kw 1). simpl. auto.
+Qed.
